@@ -7,7 +7,7 @@ git -C /repo worktree add -q $wt HEAD || exit 2
 cd $wt || exit 2
 if [ -d $d/demo ]; then
   rm -rf /tmp/demo_confirm_$$; cp -r $d/demo /tmp/demo_confirm_$$
-  sed -i "s|/tmp/wt_c[0-9]*|$wt|g" /tmp/demo_confirm_$$/Cargo.toml; rm -f /tmp/demo_confirm_$$/Cargo.lock; cp /repo/Cargo.lock /tmp/demo_confirm_$$/
+  sed -i "s|/tmp/wt_[a-z][0-9]*|$wt|g" /tmp/demo_confirm_$$/Cargo.toml; rm -f /tmp/demo_confirm_$$/Cargo.lock; cp /repo/Cargo.lock /tmp/demo_confirm_$$/
   run_demo() { (cd /tmp/demo_confirm_$$ && cargo clean >/dev/null 2>&1; cargo run --offline >/tmp/demo_out_$$.txt 2>&1; echo "demo exit=$?"; grep -E 'panicked|assert|good|OK|values' /tmp/demo_out_$$.txt | head -3); }
 else
   demo=$(ls $d/demo_*.rs | head -1); t=$(basename $demo .rs)
